@@ -2,6 +2,9 @@ import Tw.Model.Conn6
 import Tw.Model.Conn7
 import Tw.Proofs.Conn6
 import Tw.Proofs.Conn7
+import Tw.Proofs.ConnSeq
+import Tw.Proofs.ConnWire6
+import Tw.Proofs.ConnWire7
 
 /-!
 # C04 — everything the connection layer sends is well-formed; bad sends are refused
@@ -11,8 +14,10 @@ packets.  "Well-formed" at this level is `Packet.valid`: the datagram fits `MAX_
 uncompressed, the header chunk count equals the number of chunks and is at most 255, every chunk
 payload has a length the chunk header can express, an empty chunk packet carries the resend request
 flag (no `ChunksNoChunks` warning), response tokens are not `TOKEN_NONE`.  That a valid structured
-packet is written to bytes the reader parses back without warning is the packet codec's round trip
-(C05).  The chunk payloads are carried through the model as the very byte lists that were queued.
+packet is written to bytes the reader parses back without warning is proved here by composing with the
+packet codec's round trip (C05): `conn6_wire_roundtrip`, `conn6_wire_chunks`, `conn6_schedule_wire` and
+the 0.7 counterparts (`Tw/Proofs/ConnWire6.lean`, `ConnWire7.lean`: the chunk iterator inverts the chunk
+writer on the connection's chunk lists).  The chunk payloads are carried through the model as the very byte lists that were queued.
 
 Schedules are arbitrary lists of calls, each with its own clock value and random draws; the only
 hypothesis is `runPermitted`: each call is permitted by the API in the state it is made in.
@@ -167,6 +172,111 @@ theorem conn6_invariant (sched : List (Tw.Conn6.Env × Tw.Conn6.Op))
   intro t o hs
   have := hinv t o hs
   exact ⟨this.pn, this.cnt, this.size, this.nv⟩
+
+/-! ## Sequence numbers stay in range; composition with the packet codec (C05) -/
+
+/-- every ack and every chunk sequence number in every datagram sent, over every schedule (permitted
+or not) that runs, is below `SEQUENCE_MODULUS` — with `valid` this is the packet writer's full
+precondition -/
+theorem conn6_all_sent_in_range (sched : List (Tw.Conn6.Env × Tw.Conn6.Op)) (c : Tw.Conn6.Conn)
+    (outs : List Tw.Conn6.Out) (h : Tw.Conn6.run .new sched = .ok (c, outs)) :
+    ∀ out ∈ outs, ∀ p ∈ out.sent, p.seqOk :=
+  (Tw.Conn6.run_seq sched .new c outs Tw.Conn6.Conn.new_seqInv h).2
+
+theorem conn7_all_sent_in_range (sched : List (Tw.Conn7.Env × Tw.Conn7.Op)) (c : Tw.Conn7.Conn)
+    (outs : List Tw.Conn7.Out) (h : Tw.Conn7.run .new sched = .ok (c, outs)) :
+    ∀ out ∈ outs, ∀ p ∈ out.sent, p.seqOk :=
+  (Tw.Conn7.run_seq sched .new c outs Tw.Conn7.Conn.new_seqInv h).2
+
+/-- **C04 ∘ C05 (0.6), per packet**: a structured packet that is `valid` and in range is written by
+the packet model's `Packet::write` (into the connection's `MAX_PACKETSIZE` buffer) to at most
+`MAX_PACKETSIZE` bytes which `Packet::read` — told whether the connection uses a token — parses back
+to the same packet **without a single warning**, whichever way the compression choice went.
+(`HuffmanRoundTrip t` is C07's theorem for the built-in table.) -/
+theorem conn6_wire_roundtrip (t : Tw.Huffman.Table) (hrt : Tw.Packet6.HuffmanRoundTrip t)
+    (p : Tw.Conn6.Packet) (hv : p.valid = true) (hs : p.seqOk) :
+    ∃ bs, Tw.Packet6.write t (Tw.Wire6.toWire p) Tw.Gen.Packet6.MAX_PACKETSIZE = .ok bs ∧
+      bs.length ≤ Tw.Gen.Packet6.MAX_PACKETSIZE ∧
+      ∃ r, Tw.Packet6.read t bs (some (Tw.Wire6.toWire p).hasToken) (some Tw.Gen.Packet6.MAX_PACKETSIZE) = .ok r ∧
+        r.pkt = Tw.Wire6.toWire p ∧ r.warns = [] := by
+  obtain ⟨hval, hw⟩ := Tw.Wire6.toWire_valid p hv hs (Tw.Wire6.closeOk_of_valid p hv)
+  obtain ⟨bs, h1, h2, r, h3, h4, h5⟩ :=
+    Tw.Packet6.write_read_roundtrip t hrt (Tw.Wire6.toWire p) hval _ _ (Nat.le_refl _) (Nat.le_refl _)
+  exact ⟨bs, h1, h2, r, h3, h4, by rw [h5, hw]⟩
+
+/-- … and the chunk iterator over the payload of a chunk packet yields exactly the queued chunks —
+the header count equals their number, every payload is bit-identical, vital / sequence / resend flag
+are preserved — again without a warning -/
+theorem conn6_wire_chunks (ack : Nat) (tok : Option Nat) (rr : Bool) (n : Nat) (cs : List Chunk)
+    (hv : (Tw.Conn6.Packet.chunks ack tok rr n cs).valid = true) (hs : (Tw.Conn6.Packet.chunks ack tok rr n cs).seqOk) :
+    n = cs.length ∧
+    ∃ chs it, Tw.Packet.Iter.drain Tw.Packet6.codec (Tw.Packet.Iter.new (Tw.Wire6.encChunks cs) n) = (chs, [], it, false) ∧
+      chs.map Tw.Wire6.proj = cs.map Tw.Wire6.projC := by
+  have hn : n = cs.length := (valid6_spec _ hv).2 ack tok rr n cs rfl |>.1
+  refine ⟨hn, ?_⟩
+  rw [hn]
+  exact Tw.Wire6.drain_encChunks cs (Tw.Wire6.chunkEnc_of_valid hv hs)
+
+/-- the bytes of one queued chunk are what the code's `write_chunk` appends to the packet buffer -/
+theorem conn6_write_chunk_bytes (c : Chunk) (cap : Nat) (acc : List UInt8) (hl : c.data.length < 1024)
+    (hs : ∀ s r, c.vital = some (s, r) → s < 1024) (hcap : acc.length + (Tw.Wire6.encChunk c).length ≤ cap) :
+    Tw.Packet6.writeChunk c.data c.vital cap acc = .ok (acc ++ Tw.Wire6.encChunk c) :=
+  Tw.Wire6.writeChunk_enc c cap acc hl hs hcap
+
+/-- **C04 ∘ C05 (0.6), over schedules**: for every schedule of permitted calls from a fresh
+connection, every datagram handed to the send callback is — on the byte level of the packet model —
+at most 1400 bytes long and parsed back by the library's reader to the same packet without a warning -/
+theorem conn6_schedule_wire (t : Tw.Huffman.Table) (hrt : Tw.Packet6.HuffmanRoundTrip t)
+    (sched : List (Tw.Conn6.Env × Tw.Conn6.Op)) (h : Tw.Conn6.runPermitted .new sched = true) :
+    ∃ c outs, Tw.Conn6.run .new sched = .ok (c, outs) ∧ ∀ out ∈ outs, ∀ p ∈ out.sent,
+      ∃ bs, Tw.Packet6.write t (Tw.Wire6.toWire p) Tw.Gen.Packet6.MAX_PACKETSIZE = .ok bs ∧ bs.length ≤ 1400 ∧
+        ∃ r, Tw.Packet6.read t bs (some (Tw.Wire6.toWire p).hasToken) (some Tw.Gen.Packet6.MAX_PACKETSIZE) = .ok r ∧
+          r.pkt = Tw.Wire6.toWire p ∧ r.warns = [] := by
+  obtain ⟨c, outs, he, hv⟩ := conn6_no_panic_all_valid sched h
+  refine ⟨c, outs, he, ?_⟩
+  intro out ho p hp
+  exact conn6_wire_roundtrip t hrt p (hv out ho p hp) (conn6_all_sent_in_range sched c outs he out ho p hp)
+
+/-- **C04 ∘ C05 (0.7), per packet** (response tokens of `Connect` / `Token` packets are 32-bit values —
+the model's tokens are natural numbers, `Wire7.tokRange`) -/
+theorem conn7_wire_roundtrip (t : Tw.Huffman.Table) (hrt : Tw.Packet7.HuffmanRoundTrip t)
+    (p : Tw.Conn7.Packet) (hv : p.valid = true) (hs : p.seqOk) (ht : Tw.Wire7.tokRange p) :
+    ∃ bs, Tw.Packet7.write t (Tw.Wire7.toWire p) Tw.Gen.Packet7.MAX_PACKETSIZE = .ok bs ∧
+      bs.length ≤ Tw.Gen.Packet7.MAX_PACKETSIZE ∧
+      ∃ r, Tw.Packet7.read t bs (some Tw.Gen.Packet7.MAX_PACKETSIZE) = .ok r ∧
+        r.pkt = Tw.Wire7.toWire p ∧ r.warns = [] := by
+  obtain ⟨hval, hw⟩ := Tw.Wire7.toWire_valid p hv hs ht
+  obtain ⟨bs, h1, h2, r, h3, h4, h5⟩ :=
+    Tw.Packet7.write_read_roundtrip t hrt (Tw.Wire7.toWire p) hval _ _ (Nat.le_refl _) (Nat.le_refl _)
+  exact ⟨bs, h1, h2, r, h3, h4, by rw [h5, hw]⟩
+
+theorem conn7_wire_chunks (ack tok : Nat) (rr : Bool) (n : Nat) (cs : List Chunk)
+    (hv : (Tw.Conn7.Packet.chunks ack tok rr n cs).valid = true) (hs : (Tw.Conn7.Packet.chunks ack tok rr n cs).seqOk) :
+    n = cs.length ∧
+    ∃ chs it, Tw.Packet.Iter.drain Tw.Packet7.codec (Tw.Packet.Iter.new (Tw.Wire7.encChunks cs) n) = (chs, [], it, false) ∧
+      chs.map Tw.Wire7.proj = cs.map Tw.Wire7.projC := by
+  have hn : n = cs.length := (valid7_spec _ hv).2.2 ack tok rr n cs rfl |>.1
+  refine ⟨hn, ?_⟩
+  rw [hn]
+  exact Tw.Wire7.drain_encChunks cs (Tw.Wire7.chunkEnc_of_valid hv hs)
+
+/-- chunk packets and token-free control packets of every permitted 0.7 schedule round-trip on the
+byte level (for `Connect` / `Token` packets add `tokRange`, i.e. 32-bit random draws) -/
+theorem conn7_schedule_wire (t : Tw.Huffman.Table) (hrt : Tw.Packet7.HuffmanRoundTrip t)
+    (sched : List (Tw.Conn7.Env × Tw.Conn7.Op)) (h : Tw.Conn7.runPermitted .new sched = true) :
+    ∃ c outs, Tw.Conn7.run .new sched = .ok (c, outs) ∧ ∀ out ∈ outs, ∀ p ∈ out.sent, Tw.Wire7.tokRange p →
+      ∃ bs, Tw.Packet7.write t (Tw.Wire7.toWire p) Tw.Gen.Packet7.MAX_PACKETSIZE = .ok bs ∧ bs.length ≤ 1400 ∧
+        ∃ r, Tw.Packet7.read t bs (some Tw.Gen.Packet7.MAX_PACKETSIZE) = .ok r ∧
+          r.pkt = Tw.Wire7.toWire p ∧ r.warns = [] := by
+  obtain ⟨c, outs, he, hv⟩ := conn7_no_panic_all_valid sched h
+  refine ⟨c, outs, he, ?_⟩
+  intro out ho p hp ht
+  exact conn7_wire_roundtrip t hrt p (hv out ho p hp) (conn7_all_sent_in_range sched c outs he out ho p hp) ht
+
+-- the byte form of the chunk the repository's own tests send (`\x40\x01\x01\x42`: vital, sequence 1, one byte)
+example : Tw.Wire6.encChunks [⟨some (1, false), [0x42]⟩] = [0x40, 0x01, 0x01, 0x42] := by decide
+example : Tw.Wire7.encChunks [⟨some (1, false), [0x42]⟩] = [0x40, 0x01, 0x01, 0x42] := by decide
+example : (Tw.Conn6.Packet.chunks 5 (some 0x12345678) false 1 [⟨some (1, false), [0x42]⟩]).valid = true := by decide
 
 /-! ## Non-vacuity: concrete permitted schedules, and the statement computes -/
 
